@@ -419,6 +419,10 @@ class PSkip(PStochasticPattern):
     def __repr__(self):
         return ("PSkip(%s, %s, %s)" % (repr(self.pattern), self.play, self.regular))
 
+    def reset(self):
+        super().reset()
+        self.pos = 0.0
+
     def __next__(self):
         value = Pattern.value(self.pattern)
         play = Pattern.value(self.play)
